@@ -144,22 +144,34 @@ pub fn scan_class_set(pattern: &str) -> Result<CharSet, String> {
 }
 
 /// Calibrated set of a named item (DESIGN 4.1): whatever the scanner built from that item alone
-/// accepts. Cached per process.
+/// accepts. Cached per process (and per thread in front of the shared cache, so that the
+/// per-character paths do not contend on a lock).
 pub fn calibrated(pattern: &str) -> Arc<CharSet> {
+    thread_local! {
+        static LOCAL: std::cell::RefCell<HashMap<String, Arc<CharSet>>> = std::cell::RefCell::new(HashMap::new());
+    }
+    if let Some(s) = LOCAL.with(|l| l.borrow().get(pattern).cloned()) {
+        return s;
+    }
     static CACHE: OnceLock<Mutex<HashMap<String, Arc<CharSet>>>> = OnceLock::new();
     let cache = CACHE.get_or_init(|| Mutex::new(HashMap::new()));
-    if let Some(s) = cache.lock().unwrap().get(pattern) {
-        return s.clone();
-    }
-    let set = match scan_class_set(pattern) {
-        Ok(s) => s,
-        Err(e) => panic!("HARNESS: calibration of {:?} failed: {}", pattern, e),
+    let found = cache.lock().unwrap().get(pattern).cloned();
+    let set = match found {
+        Some(s) => s,
+        None => {
+            let set = match scan_class_set(pattern) {
+                Ok(s) => s,
+                Err(e) => panic!("HARNESS: calibration of {:?} failed: {}", pattern, e),
+            };
+            let set = Arc::new(set);
+            cache
+                .lock()
+                .unwrap()
+                .insert(pattern.to_string(), set.clone());
+            set
+        }
     };
-    let set = Arc::new(set);
-    cache
-        .lock()
-        .unwrap()
-        .insert(pattern.to_string(), set.clone());
+    LOCAL.with(|l| l.borrow_mut().insert(pattern.to_string(), set.clone()));
     set
 }
 
@@ -171,33 +183,181 @@ pub fn perl_positive_pattern(k: PerlKind) -> &'static str {
     }
 }
 
+fn perl_ascii(k: PerlKind, c: char) -> bool {
+    match k {
+        PerlKind::Digit => c.is_ascii_digit(),
+        PerlKind::Space => matches!(c, '\t' | '\n' | '\x0B' | '\x0C' | '\r' | ' '),
+        PerlKind::Word => c.is_ascii_alphanumeric() || c == '_',
+    }
+}
+
 pub fn mem_perl(k: PerlKind, neg: bool, c: char) -> bool {
-    // Fast paths for ASCII, which the statement of C08 fixes.
+    // ASCII is fixed by the statement of C08; the rest is calibrated.
     if c.is_ascii() {
-        let pos = match k {
-            PerlKind::Digit => c.is_ascii_digit(),
-            PerlKind::Space => matches!(c, '\t' | '\n' | '\x0B' | '\x0C' | '\r' | ' '),
-            PerlKind::Word => c.is_ascii_alphanumeric() || c == '_',
-        };
-        return pos != neg;
+        return perl_ascii(k, c) != neg;
     }
     calibrated(perl_positive_pattern(k)).has(c) != neg
 }
 
+fn ascii_pattern(k: AsciiKind) -> String {
+    format!("[[:{}:]]", k.name())
+}
+
+fn uni_pattern(name: &str) -> String {
+    if name.chars().count() == 1 {
+        format!("\\p{}", name)
+    } else {
+        format!("\\p{{{}}}", name)
+    }
+}
+
 pub fn mem_ascii(k: AsciiKind, neg: bool, c: char) -> bool {
-    let pat = format!("[[:{}:]]", k.name());
-    calibrated(&pat).has(c) != neg
+    calibrated(&ascii_pattern(k)).has(c) != neg
 }
 
 pub fn mem_uni(name: &str, neg: bool, c: char) -> bool {
-    let mut pat = String::new();
-    if name.chars().count() == 1 {
-        pat.push_str("\\p");
-        pat.push_str(name);
-    } else {
-        pat.push_str(&format!("\\p{{{}}}", name));
+    calibrated(&uni_pattern(name)).has(c) != neg
+}
+
+// Set-level evaluation of classes (same semantics as the per-character functions above, computed
+// with word-wise set algebra; the two are cross-checked by the harness self-test).
+
+fn full_set() -> &'static CharSet {
+    static FULL: OnceLock<CharSet> = OnceLock::new();
+    FULL.get_or_init(CharSet::full)
+}
+
+impl CharSet {
+    pub fn complement_in_place(&mut self) {
+        let full = full_set();
+        for (w, f) in self.words.iter_mut().zip(full.words.iter()) {
+            *w = !*w & f;
+        }
     }
-    calibrated(&pat).has(c) != neg
+    pub fn union_with(&mut self, o: &CharSet) {
+        for (w, x) in self.words.iter_mut().zip(o.words.iter()) {
+            *w |= x;
+        }
+    }
+    pub fn set_range(&mut self, a: char, b: char) {
+        let full = full_set();
+        let (a, b) = (a as usize, b as usize);
+        if a > b {
+            return;
+        }
+        for i in a..=b {
+            let f = full.words[i >> 6] & (1u64 << (i & 63));
+            self.words[i >> 6] |= f;
+        }
+    }
+}
+
+pub fn set_of_perl(k: PerlKind, neg: bool) -> CharSet {
+    let cal = calibrated(perl_positive_pattern(k));
+    let mut s = (*cal).clone();
+    // ASCII part fixed by the statement
+    s.words[0] = 0;
+    s.words[1] = 0;
+    for cp in 0..128u32 {
+        let c = char::from_u32(cp).unwrap();
+        if perl_ascii(k, c) {
+            s.set(c);
+        }
+    }
+    if neg {
+        s.complement_in_place();
+    }
+    s
+}
+
+pub fn set_of_item(it: &Item) -> CharSet {
+    match it {
+        Item::Lit(c, _) => {
+            let mut s = CharSet::empty();
+            s.set(*c);
+            s
+        }
+        Item::DotVerbatim => {
+            let mut s = CharSet::empty();
+            s.set('\n');
+            s.set('\r');
+            s.complement_in_place();
+            s
+        }
+        Item::Range(a, b) => {
+            let mut s = CharSet::empty();
+            s.set_range(*a, *b);
+            s
+        }
+        Item::Perl(k, n) => set_of_perl(*k, *n),
+        Item::Ascii(k, n) => {
+            let mut s = (*calibrated(&ascii_pattern(*k))).clone();
+            if *n {
+                s.complement_in_place();
+            }
+            s
+        }
+        Item::Uni(name, n) => {
+            let mut s = (*calibrated(&uni_pattern(name))).clone();
+            if *n {
+                s.complement_in_place();
+            }
+            s
+        }
+        Item::Nested(c) => set_of_class(c),
+    }
+}
+
+pub fn set_of_cset(cs: &CSet) -> CharSet {
+    match cs {
+        CSet::Union(items) => {
+            let mut s = CharSet::empty();
+            for it in items {
+                match it {
+                    Item::Lit(c, _) => s.set(*c),
+                    Item::Range(a, b) => s.set_range(*a, *b),
+                    other => s.union_with(&set_of_item(other)),
+                }
+            }
+            s
+        }
+        CSet::Bin(l, op, r) => {
+            let mut a = set_of_cset(l);
+            let b = set_of_cset(r);
+            for (w, x) in a.words.iter_mut().zip(b.words.iter()) {
+                *w = match op {
+                    BinOp::Inter => *w & x,
+                    BinOp::Diff => *w & !x,
+                    BinOp::SymDiff => *w ^ x,
+                };
+            }
+            a
+        }
+    }
+}
+
+pub fn set_of_class(c: &Class) -> CharSet {
+    let mut s = set_of_cset(&c.set);
+    if c.neg {
+        s.complement_in_place();
+    }
+    s
+}
+
+/// The set of a single-character IR leaf.
+pub fn set_of_leaf(re: &Re) -> CharSet {
+    match re {
+        Re::Lit(c, _) => {
+            let mut s = CharSet::empty();
+            s.set(*c);
+            s
+        }
+        Re::Dot => set_of_item(&Item::DotVerbatim),
+        Re::Class(c) => set_of_class(c),
+        Re::Perl(k, n) => set_of_perl(*k, *n),
+        Re::Uni(name, n) => set_of_item(&Item::Uni(name.clone(), *n)),
+        _ => unreachable!("not a leaf"),
+    }
 }
 
 #[inline]
@@ -324,6 +484,7 @@ pub fn ends(re: &Re, chars: &[char], starts: u128) -> u128 {
             }
         }
         Re::Group(_, x) => ends(x, chars, starts),
+        Re::Raw(_) => panic!("HARNESS: raw syntax fragment reached the reference semantics"),
     }
 }
 
